@@ -265,6 +265,14 @@ DEPENDENT_STEREO = [
     'C[C@H](N)[C@H](C)[C@H](N)C', 'C[C@H](Cl)[C@@H](Br)[C@H](Cl)C', 'F[C@H](Cl)[C@H](O)[C@@H](F)Cl',
 ]
 
+# allenes (and a cumulene) in every substitution pattern: 1 or 2 substituents per terminal, the heavy / acyclic one listed
+# first or second, on the first or the second terminal, ring-fused terminals, both configurations
+ALLENES = [x.replace('@', a) for a in ('@', '@@') for x in (
+    'CC=[C@]=CC', 'CC(Cl)=[C@]=CC', 'CC=[C@]=C(C)Cl', 'CC(Cl)=[C@]=C(C)Br', 'CC(Cl)=[C@]=C(Br)C', 'C(Cl)(C)=[C@]=C(C)Br',
+    'ClC(C)=[C@]=C(Br)C', 'CC(I)=[C@]=C1CCC(Br)CC1', 'CC(I)=[C@]=C(C)CCl', 'CC(CC)=[C@]=C(C)CCC', 'OC(C)=[C@]=C(N)C(F)(F)F',
+    'FC(Cl)=[C@]=C(Br)I', 'BrC(I)=[C@]=C(Cl)F', 'CC1CCC(CC1)=[C@]=C(C)Br', 'CC(Br)=[C@]=C1CCCC(C)C1', 'CC(Cl)=[C@]=C(CC)c1ccccc1',
+    'N[C@H](C)C(C)=[C@]=C(C)Br')]
+
 # records mixing a +-4 atom with other charged atoms, isotopes of both small and large mass difference, radicals + charges
 FIELD_MIX = [
     '[Ti+4].[Cl-].[Cl-].[Cl-].[Cl-]', '[Zr+4].[O-2].[O-2]', '[Th+4].[F-].[F-].[F-].[F-]', '[C-4].[Na+].[Na+].[Na+].[Na+]',
@@ -316,16 +324,31 @@ def special_molecules(rng):
     """(tag, molecule) for the deterministic part of the write->read oracle: laid out with the library's clean2d, coordinates
     snapped to 1/10000, cis/trans labels taken from the drawing, stereo labels that are not valid for it dropped (fix_stereo)"""
     out = []
-    for smi in DEPENDENT_STEREO + FIELD_MIX + MANY_LABELS:
+    for smi in DEPENDENT_STEREO + ALLENES + FIELD_MIX + MANY_LABELS:
         m = molgen.parse(smi)
         if m is None:
             continue
+        try:
+            m.kekule()
+        except Exception:
+            pass
         layout(rng, m)
         try:
             m.fix_stereo()
         except Exception:
             pass
         out.append((smi, m))
+        if smi in DEPENDENT_STEREO or smi in ALLENES:
+            # the same structure with other atom numbers and another neighbour (dict) order: the writers' choice among
+            # the candidate wedge bonds of a stereo element depends on it
+            for k in range(2):
+                try:
+                    c, _ = molgen.renumber(rng, m, hi=max(len(m) * 2, 12))
+                    snap(c)
+                    c.fix_stereo()
+                    out.append((f'{smi} renumbered#{k}', c))
+                except Exception:
+                    continue
     return out
 
 
@@ -1345,6 +1368,12 @@ def check_text(inp):
     return None
 
 
+# every kind of subscription: forward, stepped, from the end, reversed, empty
+SLICES = [slice(None, None, None), slice(None, None, 2), slice(1, None, None), slice(None, -1, None), slice(1, None, 3),
+          slice(None, None, -1), slice(None, None, -2), slice(-1, 0, -1), slice(-1, None, -3), slice(-2, -1, None),
+          slice(1, 1, None), slice(0, 0, None), slice(-1, -1, -1), slice(0, 1, None), slice(-3, None, None), slice(5, 1, None)]
+
+
 def index_check(fmt, text, suffix, expect=None, how=None):
     """random access by index == sequential reading (real file, real grep index); with `expect`, sequential reading
     must also give exactly these records (the file is a re-spelling of a written file)"""
@@ -1388,6 +1417,22 @@ def index_check(fmt, text, suffix, expect=None, how=None):
                     return (f'C11/index/{Rd.__name__}/record-differs', 'reader[-1] differs from the last record read sequentially', inp)
                 if [_jsonish(obj_record(o)) for o in r[0:len(seq)]] != seq:
                     return (f'C11/index/{Rd.__name__}/slice-differs', 'reader[0:n] differs from sequential reading', inp)
+                n = len(seq)
+                for i in range(-n, n):
+                    if _jsonish(obj_record(r[i])) != seq[i]:
+                        return (f'C11/index/{Rd.__name__}/record-differs', f'reader[{i}] differs from list(reader)[{i}]', inp)
+                for sl in SLICES:
+                    start, stop, step = sl.indices(n)
+                    if step > 0 and start >= n and start != stop:
+                        continue        # known finding C11/index/slice-past-end-raises
+                    try:
+                        got = [_jsonish(obj_record(o)) for o in r[sl]]
+                    except Exception as e:
+                        return (f'C11/index/{Rd.__name__}/slice-raises/{type(e).__name__}',
+                                f'reader[{sl.start}:{sl.stop}:{sl.step}] raised {type(e).__name__} (n={n})', inp)
+                    if got != seq[sl]:
+                        return (f'C11/index/{Rd.__name__}/slice-differs',
+                                f'reader[{sl.start}:{sl.stop}:{sl.step}] gives {len(got)} records, list(reader)[same slice] gives {len(seq[sl])} (n={n})', inp)
         finally:
             r.close()
             try:
@@ -1912,6 +1957,8 @@ def probe(inp):
         r = meta_probe(inp)
     elif kind == 'sessions':
         r = sessions_check(inp)
+    elif kind == 'slice-past-end':
+        r = slice_past_end_probe(inp)
     elif kind == 'string-api':
         from chython.files import mdl_mol, mdl_rxn
         lines = inp['text'].splitlines(keepends=True)
@@ -1963,6 +2010,35 @@ def _smiles_objs(inp):
             m.meta.update(inp.get('meta0', {}))
         objs.append(m)
     return objs
+
+
+def slice_past_end_probe(inp):
+    """`reader[n:1]` on an indexable reader of n records: a list gives [], the reader seeks to offset n first"""
+    fmt = inp['fmt']
+    _, Rd = io_classes(fmt)
+    objs = _smiles_objs(inp)
+    d = tempfile.mkdtemp(prefix='c11_')
+    p = os.path.join(d, 'f.sdf' if 'SDF' in fmt else 'f.rdf')
+    try:
+        with open(p, 'w', newline='') as f:
+            f.write(write_text(fmt, objs))
+        r = Rd(p, indexable=True)
+        try:
+            n = len(r)
+            try:
+                got = r[n:1]
+            except Exception as e:
+                return (inp['signature'], f'reader[{n}:1] of a {n}-record file raised {type(e).__name__}({e}); list(reader)[{n}:1] is []', inp)
+            return None if got == [] else (inp['signature'], f'reader[{n}:1] returned {len(got)} records', inp)
+        finally:
+            r.close()
+            try:
+                os.remove(r._cache_path)
+            except OSError:
+                pass
+    finally:
+        import shutil
+        shutil.rmtree(d, ignore_errors=True)
 
 
 def meta_probe(inp):
